@@ -47,6 +47,11 @@ func evalC13(e *Eval) {
 			e.Res.Outcome = "crash"
 		} else {
 			e.Res.Outcome = "refused: " + trunc(pi.Msg, 30)
+			// every registration of the family is in the statement's domain, except the handler
+			// expressions ParseEcho says it does not read (parenthesised, address-of ...)
+			if !strings.HasPrefix(pi.Msg, "unsupported handler function") {
+				e.Fail("handlers-resolved", "refused: "+trunc(pi.Msg, 60), "ParseEcho refuses a routes file whose registrations are all of the supported forms: "+pi.String())
+			}
 		}
 		return
 	}
